@@ -122,3 +122,18 @@ Fixpoint last_bound (k : key) (rev_ops : list op) : option Z :=
   | ORemove k' :: r => if keq k' k then None else last_bound k r
   | _ :: r => last_bound k r
   end.
+
+(** The independent reading of "least recently visited": the time of the last Visit
+    of a way, read off the history.  The clock counts NewSet's initial visits of
+    ways 0..n-1 and then every Visit call (a call with a way id outside [0, n) ticks
+    the clock too but stamps nothing); scan the history backwards for the last Visit
+    of the way. *)
+Fixpoint hist_stamp (n : Z) (w : Z) (rev_ops : list op) : N :=
+  match rev_ops with
+  | [] => if (0 <=? w) && (w <? n) then (Z.to_N w + 1)%N else 0%N
+  | OVisit w' :: r =>
+      if (w' =? w) && (0 <=? w) && (w <? n)
+      then (Z.to_N n + count_visits r + 1)%N
+      else hist_stamp n w r
+  | _ :: r => hist_stamp n w r
+  end.
